@@ -97,6 +97,15 @@ CHECKS = {
         "technique": SIM + "interval oracle on probe/announcement times, conflict-presence timeline from delivered traffic",
         "design_ref": "DESIGN.md §5 C09",
     },
+    "C11": {
+        "text": "Seeded search over queries (1..4 questions with independent QU/QM bits, probes, any id, known answers) from "
+                "arbitrary source addresses and ports, by multicast or unicast, against a real responder in single-, multi- "
+                "and dual-stack socket layouts, arriving at record ages below/at/above a quarter TTL; every datagram the "
+                "responder emits is decoded independently and checked for destination class per answer (unicast / "
+                "immediate multicast), sending socket, id/question echo, flush bits and multicast header.",
+        "technique": SIM + "per-query expected unicast / immediate-multicast sets from ModelRegistry + per-host ModelCache",
+        "design_ref": "DESIGN.md §5 C11",
+    },
     "C05": {
         "text": "Seeded search over response-datagram histories (repeats, refreshes, goodbyes, cache-flush, re-cased names) "
                 "and clock steps around the 1 s flush window, TTL expiry and the 10 s purge, driven through the real "
